@@ -26,6 +26,8 @@ OPTS = {
     "lt0_lT": {"localize_t0": True, "localize_T": True},
     "minmax": {"min": MIN, "max": MAX},
     "lT_minmax": {"localize_T": True, "min": MIN, "max": MAX},
+    "min_only": {"min": MIN},
+    "max_only": {"max": MAX},
 }
 
 
@@ -199,7 +201,7 @@ def semantics(case, res, tags):
             T = d["TT"]; t0 = d["T0"]
             for k in range(N):
                 for val in (mn - 0.05, mn + 0.02, mx - 0.02, mx + 0.05):
-                    if N == 1: continue
+                    if N == 1 or not np.isfinite(val): continue
                     Ls = np.full(N, (mn + min(mx, mn + 1.0)) / 2)
                     Ls[k] = val
                     scen.append((t0 + np.concatenate([[0], np.cumsum(Ls)]), Ls.sum(), t0))
@@ -207,6 +209,7 @@ def semantics(case, res, tags):
             nn = np.diff(np.array(n))
             for k in range(N):
                 for val in (mn - 0.05, mn + 0.02, mx - 0.02, mx + 0.05):
+                    if not np.isfinite(val): continue
                     T = val / nn[k]
                     if T <= 0: continue
                     scen.append((d["T0"] + T * np.array(n), T, d["T0"]))
@@ -289,6 +292,6 @@ def run_case(case):
 
 def describe(tier):
     return dict(
-        rule="full product grid class(9) x option set(6: plain, localize_t0, localize_T, both, min/max, localize_T+min/max) x N x M x horizon kind x method, plus ordered pairs of grid classes declared in one process; sampled control/integrator/collocation times, value(T,t0,tf), DT, DT_control compared with independently computed partitions (scipy quad+brentq for densities); for the grid's own NLP rows (real rows depending on time coordinates only): declared partitions are reachable and satisfy them, their equality rows admit nothing but the declared family (null-space analysis of the enumerated affine system), min/max are enforced exactly on a boundary lattice",
+        rule="full product grid class(9) x option set(8: plain, localize_t0, localize_T, both, min/max, localize_T+min/max, min only, max only) x N x M x horizon kind x method, plus ordered pairs of grid classes declared in one process; sampled control/integrator/collocation times, value(T,t0,tf), DT, DT_control compared with independently computed partitions (scipy quad+brentq for densities); for the grid's own NLP rows (real rows depending on time coordinates only): declared partitions are reachable and satisfy them, their equality rows admit nothing but the declared family (null-space analysis of the enumerated affine system), min/max are enforced exactly on a boundary lattice",
         bound="N in %s, M in %s" % (("1..8", "1..4") if tier == "thorough" else ("{1,2,3,5}", "{1,2}")),
         assumptions=["CasADi Function evaluation and Opti bookkeeping are trusted", "DenseEdgesGrid node locations are checked structurally only (symmetric increasing partition)", "density grids compared at 1e-6 (both sides integrate numerically)"])
